@@ -76,3 +76,40 @@ func bech32DecodeLiteral(s string) (string, []byte, bool) {
 	}
 	return hrp, out, true
 }
+
+// bech32EncodeLiteral is the concrete encoder for byte strings that are fully known on a path.
+func bech32EncodeLiteral(hrp string, data []byte) string {
+	var five []byte
+	acc, bits := uint32(0), uint(0)
+	for _, b := range data {
+		acc = acc<<8 | uint32(b)
+		bits += 8
+		for bits >= 5 {
+			bits -= 5
+			five = append(five, byte(acc>>bits)&31)
+		}
+	}
+	if bits > 0 {
+		five = append(five, byte(acc<<(5-bits))&31)
+	}
+	var exp []byte
+	for i := 0; i < len(hrp); i++ {
+		exp = append(exp, hrp[i]>>5)
+	}
+	exp = append(exp, 0)
+	for i := 0; i < len(hrp); i++ {
+		exp = append(exp, hrp[i]&31)
+	}
+	values := append(append(exp, five...), 0, 0, 0, 0, 0, 0)
+	mod := bech32Polymod(values) ^ 1
+	var sb strings.Builder
+	sb.WriteString(hrp)
+	sb.WriteByte('1')
+	for _, v := range five {
+		sb.WriteByte(bech32Charset[v])
+	}
+	for i := 0; i < 6; i++ {
+		sb.WriteByte(bech32Charset[(mod>>uint(5*(5-i)))&31])
+	}
+	return sb.String()
+}
